@@ -45,7 +45,15 @@ def serializer_widths(ctx, ck):
         if not mm:
             continue
         ty = mm.group(1)
-        b = ctx.body(p)
+        # (each method is judged as one function: a new private helper it hands the bytes to -- push_bytes(&x.to_ne_bytes())
+        # -- is copied into it first)
+        mir.Walker.AUTO_INLINE = True
+        try:
+            b = ctx.body(p)
+            b.loops()
+            mir.walk_function(b)
+        finally:
+            mir.Walker.AUTO_INLINE = False
         pty = b.ltypes.get(2)
         ok = pty == ty
         why = None if ok else "parameter type %s" % pty
